@@ -502,7 +502,7 @@ def run(tier, seed):
     return [
         cmd.result("C07.spawn.command_line", "C07", fn, spawn_scope + " (+ a second run string)", True,
                    "distinct enumerated tuples; non-trivial = both args and options non-empty", wall_spawn),
-        env_.result("C07.spawn.env_vars", "C07", fn, spawn_scope, True,
+        env_.result("C07.spawn.env_vars", ["C07", "C08"], fn, spawn_scope, True,
                     "distinct enumerated tuples; non-trivial = at least one dependency output path", wall_spawn),
         slot_.result("C04.spawn.cond_slot_iff_slot", ["C04", "C07"], fn, spawn_scope, True,
                      "distinct enumerated tuples; non-trivial = COND_SLOT already present in os.environ",
